@@ -544,6 +544,31 @@ func (env *Env) call(n *Node) *Value {
 		_, vn, _ := e.mapComps(mt)
 		ks, vs := e.sorts.sortOf(mt.Key()), e.sorts.sortOf(mt.Elem())
 		return term(sel(e.comp(env.st, vn, arrSort(arrSortK(ks, vs))), m.T), arrSortK(ks, vs), nil)
+	case "alldom": // alldom(m): the domain component of EVERY map of m's type, indexed by map reference (for spec functions that follow pointers)
+		m := arg(0)
+		mt := m.Type.Underlying().(*types.Map)
+		dn, _, _ := e.mapComps(mt)
+		ks := e.sorts.sortOf(mt.Key())
+		return term(e.comp(env.st, dn, arrSort(arrSortK(ks, sBool))), arrSort(arrSortK(ks, sBool)), nil)
+	case "allvals":
+		m := arg(0)
+		mt := m.Type.Underlying().(*types.Map)
+		_, vn, _ := e.mapComps(mt)
+		ks, vs := e.sorts.sortOf(mt.Key()), e.sorts.sortOf(mt.Elem())
+		return term(e.comp(env.st, vn, arrSort(arrSortK(ks, vs))), arrSort(arrSortK(ks, vs)), nil)
+	case "hfield": // hfield("symbol.Scope.Parent"): the whole heap component of a struct field, indexed by object reference
+		if len(n.Kids) != 1 || n.Kids[0].Op != "str" {
+			env.fail("hfield(\"pkg.Struct.Field\")")
+		}
+		cn := "H." + n.Kids[0].Lit
+		srt, ok := e.compSort[cn]
+		if !ok {
+			srt = e.fieldCompSort(cn, env.fnPkg)
+			if srt == "" {
+				env.fail("hfield: unknown field %s", n.Kids[0].Lit)
+			}
+		}
+		return term(e.comp(env.st, cn, srt), srt, nil)
 	case "arr": // element array of a slice
 		x := arg(0)
 		u, ok := x.Type.Underlying().(*types.Slice)
@@ -904,6 +929,17 @@ func (env *Env) evalSplit(n *Node) []string {
 // not touched yet (needed when a callee's frame names it with comp("...")).
 func (e *Encoder) fieldCompSort(name string, from *types.Package) string {
 	parts := strings.Split(name, ".")
+	if len(parts) == 3 && parts[0] == "G" {
+		// package-level variable: one cell (index 0) holding the variable's value
+		for _, p := range e.prog.SSA.AllPackages() {
+			if shortPkg(p.Pkg.Path()) == parts[1] {
+				if g, ok := p.Members[parts[2]].(*ssa.Global); ok {
+					return arrSort(e.sorts.sortOf(g.Type().(*types.Pointer).Elem()))
+				}
+			}
+		}
+		return ""
+	}
 	if len(parts) != 4 || parts[0] != "H" {
 		return ""
 	}
